@@ -231,6 +231,15 @@ ShellCommand::processDependencyInfoDiscoveredDependencies(BuildSystem& system,
       system.getDelegate().commandFoundDiscoveredDependency(command, path, DiscoveredDependencyKind::Output);
     }
     virtual void actOnInput(StringRef path) override {
+      // As for Makefile-style dependencies, a relative path is in relation to
+      // the command's working directory.
+      SmallString<PATH_MAX> absPath;
+      if (!llvm::sys::path::is_absolute(path)) {
+        absPath = StringRef(command->workingDirectory);
+        llvm::sys::path::append(absPath, path);
+        llvm::sys::fs::make_absolute(absPath);
+        path = absPath;
+      }
       ti.discoveredDependency(BuildKey::makeNode(path).toData());
       system.getDelegate().commandFoundDiscoveredDependency(command, path, DiscoveredDependencyKind::Input);
     }
